@@ -21,8 +21,9 @@ SpecFirst == {"abs", "add", "linalg_cholesky", "clone", "diagonal", "div", "lina
               "sub", "sum", "linalg_svd", "transpose", "unsqueeze"}
 \* second-argument handlers: torch.f(tensor, op) and tensor.<binop>(op)
 SpecSecond == {"torch.add", "torch.isclose", "torch.mul", "torch.matmul", "Tensor.matmul", "Tensor.mul", "Tensor.add", "Tensor.sub", "torch.sub"}
-TableComplete == SpecFirst \subseteq LiveFirst /\ SpecSecond \subseteq LiveSecond      \* nothing the property lists was unregistered
-TableKnown == LiveFirst \subseteq SpecFirst /\ LiveSecond \subseteq SpecSecond        \* nothing registered is unknown to the spec
+\* (stated as state predicates - guarded by a variable - so that TLC checks them as invariants)
+TableCompleteC == SpecFirst \subseteq LiveFirst /\ SpecSecond \subseteq LiveSecond      \* nothing the property lists was unregistered
+TableKnownC == LiveFirst \subseteq SpecFirst /\ LiveSecond \subseteq SpecSecond        \* nothing registered is unknown to the spec
 
 VARIABLES desc, term, dense, todo, n_logged
 vars == <<desc, term, dense, todo, n_logged>>
@@ -46,6 +47,9 @@ Calls(cls, b) ==
   \cup { <<"second", f, v>> : f \in {"torch.add", "torch.sub", "torch.mul", "torch.matmul", "Tensor.add", "Tensor.sub", "Tensor.mul", "Tensor.matmul"},
                                v \in {1, 2} }                                  \* 1 same-shape tensor, 2 broadcasting / vector
   \cup { <<"first", f, 0>> : f \in {"diagonal", "clone", "numel", "transpose", "unsqueeze", "sum_m1", "sum_m2"} }
+  \* isclose with the tolerances given positionally, operator first / second: X = A + 1/4, rtol = 0, atol = 1/2 -> all close
+  \* (with the default tolerances nothing would be close)
+  \cup { <<"first", "isclose", 0>>, <<"second", "torch.isclose", 0>> }
   \cup (IF Len(b) > 0 THEN { <<"first", f, 0>> : f \in {"sum_b", "permute", "squeeze"} } ELSE {})
   \cup (IF cls \in PdSet THEN { <<"first", f, 0>> : f \in {"logdet", "linalg_solve", "linalg_cholesky", "linalg_eigh", "linalg_eigvalsh", "linalg_svd", "inverse"} }
         ELSE {})
@@ -94,6 +98,8 @@ Eval(c) ==
     [] k = "second" /\ f \in {"torch.sub", "Tensor.sub"} -> LET X == IF v = 2 THEN BcT ELSE SameT IN [arg |-> X, expect |-> T_Sub(X, A)]
     [] k = "second" /\ f \in {"torch.mul", "Tensor.mul"} -> [arg |-> T_Scalar(3), expect |-> T_Scale(A, 3)]
     [] k = "second" /\ f \in {"torch.matmul", "Tensor.matmul"} -> LET X == IF v = 1 THEN LMatT ELSE VecT IN [arg |-> X, expect |-> T_MatMulAny(X, A)]
+    [] f \in {"isclose", "torch.isclose"} -> [arg |-> [shape |-> A.shape, data |-> [i \in 1..Len(A.data) |-> 4 * A.data[i] + 1], den |-> 4],
+                                               expect |-> T_Ones(A.shape)]
     [] f = "diagonal" -> [arg |-> None, expect |-> T_Diagonal(A)]
     [] f = "clone" -> [arg |-> None, expect |-> A]
     [] f = "numel" -> [arg |-> None, expect |-> T_Scalar(T_Numel(A))]
@@ -119,4 +125,6 @@ Call ==
 
 Next == Construct \/ Call
 Spec == Init /\ [][Next]_vars
+TableComplete == (n_logged >= -1) => TableCompleteC
+TableKnown == (n_logged >= -1) => TableKnownC
 =============================================================================
